@@ -378,6 +378,8 @@ class Unit:
         # prelude
         if c and c.prelude:
             edits.append((bo + 1, 0, [('\n', ('gen', None, 0))] + [(t + '\n', ('vspec', c.prelude.file, no)) for t, no in c.prelude.lines]))
+        if c and c.epilogue:
+            edits.append((be, 0, [('\n', ('gen', None, 0))] + [(t + '\n', ('vspec', c.epilogue.file, no)) for t, no in c.epilogue.lines]))
         # loops
         loops = rustscan.find_loops(m, bo + 1, be)
         info['loops'] = len(loops)
@@ -611,9 +613,11 @@ class Unit:
                 hdr = self._apply_rewrites(hdr, [(r_, None, rx_, rp_, o_) for (r_, c_, rx_, rp_, o_) in file_rewrites], repo_file, line(it.attr_start))
                 em.emit(hdr, ('repo', repo_file, line(it.attr_start)))
                 em.emit('\n', ('gen', None, 0))
-                if fspec and it.kind == 'trait' and ('trait ' + it.name) in fspec.types:
-                    for f in fspec.types['trait ' + it.name].fields:
+                tkey = ('trait ' + it.name) if it.kind == 'trait' else it.name
+                if fspec and tkey in fspec.types:
+                    for f in fspec.types[tkey].fields:
                         em.emit('    ' + f + '\n', ('gen', None, 0))
+                        self.report['rewrites'].append({'rule': 'R16', 'file': repo_file, 'line': line(it.start), 'before': '', 'after': f})
                 for ch, md in chosen:
                     if md == 'plain':
                         em.emit(src[ch.attr_start:ch.end] + '\n', ('repo', repo_file, line(ch.attr_start)))
